@@ -307,6 +307,14 @@ def obligations(tier):
     # success side, chain bookkeeping: several peptides under one (or a blank) chain id, each ending in OXT, must be processed
     for layout in ("hidden-ends", "blank-two-chains", "blank-chain") if tier == "thorough" else ("hidden-ends",):
         obs.append(Obligation(f"success-termini-{layout}", c02.h_termini, dict(layout=layout, strict=True), group="success-termini", time_cap=3000, max_paths=100000))
+    # success side, --apbs-input: the grid sizing reads the PQR that has just been written (default or --whitespace layout); it
+    # must not raise for any coordinate the writer can lay out - a failure there ends a well-formed run with an error AFTER
+    # the output file exists (C17's parser harness, loud outcome only; round 6)
+    from . import c17
+
+    for ws in (False, True):
+        for focus in (("x", "radius"), ("y", "radius"), ("z", "charge")):
+            obs.append(Obligation(f"apbs-sizing-reads-written-pqr-{'+'.join(focus)}-{'ws' if ws else 'fixed'}", c17.h_parse, dict(focus=list(focus), ws=ws, kc=False, header="remark-text", natoms=2, first_small=True, sym_first=False, loud_only=True), group="apbs-sizing", time_cap=1200))
     obs.append(Obligation("success-amino-parse-neutral-termini", table_success, dict(ff="parse", residues=AMINO if tier == "thorough" else AMINO[::3] + ["GLY", "PRO", "HIS"], kind="amino", neutral=True), kind="table", group="success"))
     return obs
 
